@@ -22,6 +22,11 @@ import core
 PID = "C18"
 
 
+def _rand_herm(rng, d):
+    a = rng.standard_normal((d, d)) + 1j * rng.standard_normal((d, d))
+    return (a + a.conj().T) / 2
+
+
 def rand_system(rng, kind):
     """(H, c_ops, dims) with a unique stationary state"""
     import qutip
@@ -49,6 +54,20 @@ def rand_system(rng, kind):
         sm1, sm2 = qutip.tensor(qutip.sigmam(), qutip.qeye(2)), qutip.tensor(qutip.qeye(2), qutip.sigmam())
         H = g * (sm1.dag() * sm2 + sm2.dag() * sm1) + rng.uniform(0.2, 0.6) * (sm1 + sm1.dag())
         c = [np.sqrt(rng.uniform(0.3, 1.0)) * sm2]
+    elif kind == "spin-cascade":
+        # pure decay down a spin ladder: the stationary state is the last basis state, fed through a chain of levels
+        # (the diagonal of the Liouvillian has structural zeros and the bipartite matching is a long cycle)
+        j_ = float(rng.choice([1.0, 1.5, 2.0]))
+        H = qutip.qzero(int(2 * j_ + 1))
+        c = [np.sqrt(rng.uniform(0.3, 1.0)) * qutip.jmat(j_, "-")]
+    elif kind == "pumped-ladder":
+        # incoherent pumping up a truncated oscillator: the stationary state is the top level
+        N = int(rng.integers(3, 6))
+        H = qutip.qzero(N)
+        c = [np.sqrt(rng.uniform(0.3, 1.0)) * qutip.create(N)]
+    elif kind == "cascade-x-qubit":
+        H = qutip.tensor(qutip.qzero(3), 0.5 * qutip.sigmax())
+        c = [np.sqrt(rng.uniform(0.3, 1.0)) * qutip.tensor(qutip.jmat(1.0, "-"), qutip.qeye(2)), np.sqrt(rng.uniform(0.3, 1.0)) * qutip.tensor(qutip.qeye(3), qutip.sigmam())]
     elif kind == "double-dot":
         # transport through two coherently coupled levels (empty, left, right)
         e, L_, R_ = qutip.basis(3, 0), qutip.basis(3, 1), qutip.basis(3, 2)
@@ -65,7 +84,7 @@ def rand_system(rng, kind):
 
 def run(tier, seed, replay):
     rep = core.Report(PID, tier, seed)
-    rep.rule = ("generators: 7 families (qubit, qutrit, cavity, two-qubit, exchange with structural zeros, double dot, qubit x qutrit) x random "
+    rep.rule = ("generators: 10 families (qubit, qutrit, cavity, two-qubit, exchange with structural zeros, double dot, qubit x qutrit, spin cascade, pumped ladder, cascade x qubit: stationary states fed through chains of levels) x random "
                 "parameters x 3 storage formats x ~45 method / solver / reordering / preconditioner / weight combinations; non-trivial = every generator")
     rep.assumptions = ["residual bound: 1e-7 x ||L|| for direct / eigen / svd / power with exact solvers, 1e-4 x ||L|| for iterative solvers and the propagator method (their own stopping tolerances)",
                        "uniqueness of the stationary state is checked on each generator (second smallest singular value > 1e-6) before it is used"]
@@ -161,7 +180,7 @@ def run(tier, seed, replay):
     if ndis:
         rep.broken.append({"kind": "correspondence", "count": ndis, "first": first})
     # ------------------------------------------------------------ oracle
-    kinds = ["qubit", "qutrit", "cavity", "two-qubit", "exchange", "double-dot", "qubit-qutrit"]
+    kinds = ["qubit", "qutrit", "cavity", "two-qubit", "exchange", "double-dot", "qubit-qutrit", "spin-cascade", "pumped-ladder", "cascade-x-qubit"]
     combos = [("direct", {}), ("direct", {"solver": "solve"}), ("direct", {"solver": "lstsq"}), ("direct", {"solver": "spsolve"}),
               ("direct", {"sparse": True}), ("direct", {"sparse": False}), ("direct", {"weight": 3.0}), ("direct", {"weight": 0.01}),
               ("direct", {"solver": "spsolve", "use_rcm": True}), ("direct", {"solver": "spsolve", "use_wbm": True}),
@@ -175,7 +194,7 @@ def run(tier, seed, replay):
               ("power", {"solver": "gmres", "use_precond": True}), ("power", {"solver": "gmres", "use_precond": True, "use_rcm": True, "use_wbm": True}),
               ("power-gmres", {"use_precond": True, "use_rcm": True}), ("propagator", {})]
     loose = {"gmres", "lgmres", "bicgstab"}
-    nsys = 8 if tier == "quick" else 40
+    nsys = 10 if tier == "quick" else 40
     for si in range(nsys):
         kind = kinds[si % len(kinds)] if si < 2 * len(kinds) else str(rng.choice(kinds))
         H, c = rand_system(rng, kind)
@@ -328,6 +347,32 @@ def run(tier, seed, replay):
                 long = hs.run(qutip.basis(2, 0).proj(), [0, 60, 120]).states[-1].full()
                 if np.abs(long - R).max() > 1e-5:
                     v("heom:long-time", f"HEOM steady state differs from the long-time evolution by {np.abs(long - R).max():.1e}", data)
+        # generic couplings: complex Hamiltonians, coupling operators with off-diagonal elements in every row,
+        # one or two baths at different temperatures (stationary states carrying a current)
+        hrng = np.random.default_rng(seed * 7919 + 18)
+        for case in range(4 if tier == "quick" else 12):
+            d = 2 if case % 3 else 3
+            Hs = qutip.Qobj(_rand_herm(hrng, d)) * 0.6
+            Qs = [qutip.Qobj(_rand_herm(hrng, d)) for _ in range(1 + case % 2)]
+            baths = [DrudeLorentzBath(Q, lam=float(hrng.uniform(0.02, 0.08)), gamma=float(hrng.uniform(0.6, 1.4)),
+                                      T=float(hrng.uniform(0.5, 2.0)), Nk=1) for Q in Qs]
+            cops = [0.4 * qutip.destroy(d)]
+            hs = HEOMSolver(qutip.liouvillian(Hs, cops), baths, max_depth=2, options={"progress_bar": "", "nsteps": 50000})
+            with core.time_limit(120):
+                rho, ados = hs.steady_state()
+                long = hs.run(qutip.basis(d, 0).proj(), [0, 100, 200]).states[-1].full()
+            R = rho.full()
+            rep.evaluations += 1
+            rep.count("heom-steady-state-generic")
+            data = {"case": case, "H": str(Hs.full().tolist()), "Q": [str(Q.full().tolist()) for Q in Qs]}
+            if abs(np.trace(R) - 1) > 1e-9 or np.abs(R - R.conj().T).max() > 1e-9:
+                v("heom:state", f"HEOM steady state is not a normalised Hermitian operator: trace {np.trace(R)}", data)
+            gen = hs.rhs(0).full()
+            res = np.abs(gen @ np.asarray(ados._ado_state).reshape(-1)).max()
+            if res > 1e-7 * max(1, np.abs(gen).max()):
+                v("heom:residual", f"HEOM steady state is not a fixed point of the hierarchy generator: {res:.1e}", data)
+            if np.abs(long - R).max() > 1e-4:
+                v("heom:long-time", f"HEOM steady state differs from the long-time evolution by {np.abs(long - R).max():.1e}", data)
     except ImportError:
         pass
     for sig, (what, data) in viol.items():
